@@ -53,6 +53,16 @@ def gen_ops(rng, version):
     return ops
 
 
+# hand-made histories that run first: lines that fail late in their connection (a path with too few overlaps at the
+# level that does not check the text, a path over an unknown link at the levels that do, a group over an unknown item)
+CORPUS = [
+    ('gfa1', 0, ['S\ta\t*', 'S\tb\t*', 'L\ta\t+\tb\t+\t1M', 'P\tp\ta+,b+,c+\t1M', 'P\tq\ta+,b+,c+,d-\t1M,2M', 'P\tr\tx+,y+,z+\t3M']),
+    ('gfa1', 1, ['S\ta\t*', 'S\tb\t*', 'L\ta\t+\tb\t+\t1M', 'P\tp\ta+,b+,c+\t1M', 'P\tp\ta+,b+\t2M,1M,3M', 'S\ta\t*', 'P\tb\ta+,b+\t1M']),
+    ('gfa2', 0, ['S\ta\t10\t*', 'S\tb\t10\t*', 'E\te\ta+\tb+\t7\t10$\t0\t3\t*', 'O\to\ta+ b+', 'O\te\ta+ b+', 'U\tu\ta e', 'U\ta\tb', 'E\tu\ta+\tb-\t0\t1\t0\t1\t*']),
+    ('gfa2', 2, ['S\ta\t10\t*', 'S\tb\t10\t*', 'E\te\ta+\tb+\t7\t10$\t0\t3\t*', 'O\to\ta+ b+', 'O\te\ta+ b+', 'U\tu\ta e', 'U\ta\tb', 'E\tu\ta+\tb-\t0\t1\t0\t1\t*']),
+]
+
+
 def judge(case):
     g = impl.gfapy()
     G = g.Gfa(version=case['version'], vlevel=case['vlevel'])
@@ -75,13 +85,22 @@ def run(ctx, deep, model_ok):
     rng = ctx.rng
     n = 300 if deep else 60
     # oracle over the full state (incl. headers)
-    for i in range(n):
+    for i in range(-len(CORPUS), n):
         ver = 'gfa1' if i % 2 else 'gfa2'
-        case = {'kind': 'history', 'version': ver, 'vlevel': rng.choice([1, 2, 3]), 'ops': gen_ops(rng, ver)}
+        if i < 0:
+            ver, vl, lines = CORPUS[i + len(CORPUS)]
+            case = {'kind': 'history', 'version': ver, 'vlevel': vl, 'ops': [('add', l) for l in lines]}
+        else:
+            case = {'kind': 'history', 'version': ver, 'vlevel': rng.choice([0, 1, 2, 3]), 'ops': gen_ops(rng, ver)}
         fails = judge(case)
         if fails:
             small = GC.shrink(dict(case, ops=case['ops'][:fails[0][3] + 1]), lambda c: bool(judge(c)))
             f2 = judge(small) or fails
+            last = small['ops'][f2[0][3]] if len(f2[0]) > 3 and f2[0][3] < len(small['ops']) else None
+            if small['vlevel'] == 0 and last and last[0] == 'add' and 'raised FormatError' in f2[0][0]:
+                ctx.known('F65', "at level 0 an added line with a malformed field raises FormatError while its references are "
+                                 "being initialised and leaves the placeholders created so far (add_line is not atomic)")
+                continue
             ctx.violation('failing-input', f2[0][0], small, f2[0][1], f2[0][2], python=GC.py_of(small))
     # correspondence with the model (headers are no-ops there and excluded from the observation)
     def gen_nohdr(rng2, version):
